@@ -69,7 +69,7 @@ PROPS = {
         level_note="Trusted: harness/ref ensure model. Excluded and counted: null/scalar on the path, names addressed into arrays, last index beyond an existing array, negative and non-canonical indices, '-' before the last token.",
     ),
     "C15": dict(
-        pkg="c15", units=[rapid("TestProp", 18000, 80000), rapid("TestPropWF", 18000, 80000), fuzz("FuzzWellFormed", 60)], assumptions=COMMON_ASSUME,
+        pkg="c15", units=[rapid("TestProp", 18000, 80000), rapid("TestPropWF", 18000, 80000), plain("TestDeepResult", shards=dict(quick=1, thorough=1), timeout=dict(quick=900, thorough=3600)), fuzz("FuzzWellFormed", 60)], assumptions=COMMON_ASSUME,
         technique="property-based testing (rapid): strict RFC 8259 recogniser + UTF-8 + value round trip on every output; metamorphic relations EscapeHTML on/off, ApplyIndent vs re-indented Apply (encoding/json.Indent differential), inserted passing tests; coverage-guided native fuzzing of the same oracle over raw bytes in the thorough tier",
         level_text="Generated-input search over documents whose names and strings hold the HTML-sensitive characters: every successful output of the five functions must be one RFC 8259 text in valid UTF-8 denoting the reference value; the on/off outputs must differ in spelling only, obey the two escaping clauses, ApplyIndent / ApplyIndentWithOptions must equal an independent re-indentation of Apply / ApplyWithOptions byte for byte under both settings, and inserted passing tests must not change a byte. Exploration only.",
         level_note="Trusted: harness/ref recogniser and canonical writer, encoding/json.Indent of the default toolchain (cross-checked by an independent re-indenter). The byte-identity clauses are asserted only for inputs in the encoder's own spelling, as the quantifier states.",
@@ -139,7 +139,7 @@ PROPS = {
     ),
     "C20": dict(
         pkg="c20", helpers=["cli-v5", "cli-legacy"],
-        units=[rapid("TestProp", 1500, 8000), rapid("TestPropLegacy", 500, 5000)],
+        units=[rapid("TestProp", 1500, 8000), rapid("TestPropLegacy", 500, 5000), plain("TestManyFiles", shards=dict(quick=1, thorough=1))],
         assumptions=COMMON_ASSUME + ["the binaries are built by the driver from /repo's working tree (v5/cmd/json-patch with plain -mod=readonly; cmd/json-patch from the staged legacy module)"],
         technique="property-based testing (rapid) of the built binaries: differential against an in-process fold of the library's own DecodePatch/Apply over generated stdin documents and ordered patch-file lists",
         level_text="Generated-input search on the real executables: for each generated stdin document and ordered list of patch files (applicable, failing, malformed, missing, directory; all four flag spellings) the exit status, stdout and stderr are compared with the fold of the library calls: byte-identical stdout and exit 0 on success; no stdout, a message on stderr and a non-zero exit otherwise. Exploration only.",
